@@ -39,9 +39,11 @@ def check(ctx, replay=None):
         return validate(ctx, traces, s1, s2)
     nontrivial = 0
     for fam, names in (("plain", "Names3"), ("colon", "NamesColon")):
-        maxrecs = 2 if ctx.tier == "quick" or fam == "colon" else 3
+        # (three records over the substring name pool do not finish within an hour: the thorough tier
+        # replays a denser sample of the two-record space and more random histories instead)
+        maxrecs = 2
         scn = ctx.path("xscn_%s.ndjson" % fam)
-        stride = 40 if ctx.tier == "quick" else (200 if fam == "plain" else 10)
+        stride = 40 if ctx.tier == "quick" else 4
 
         class Sink(ScenarioSink):
             def __call__(self, line):
